@@ -116,6 +116,9 @@ __CPROVER_assigns()
 _Bool w_colinear(void *a, void *b, void *c, double tolerance)
 __CPROVER_requires(FRESH_PT(a) && FRESH_PT(b) && FRESH_PT(c))
 __CPROVER_requires(ONGRID(a) && ONGRID(b) && ONGRID(c))
+#ifdef SPLIT_LO
+__CPROVER_requires(P(a)->x >= (double)SPLIT_LO && P(a)->x <= (double)SPLIT_HI)
+#endif
 __CPROVER_requires(tolerance == 0.0)
 __CPROVER_ensures(__CPROVER_return_value == (EXCROSS(a, b, c) == 0))
 __CPROVER_assigns()
@@ -128,6 +131,9 @@ void h_colinear(void) { void *a, *b, *c; double t; w_colinear(a, b, c, t); VERIF
 _Bool w_pointOnLine(void *a, void *b, void *c, double tolerance)
 __CPROVER_requires(FRESH_PT(a) && FRESH_PT(b) && FRESH_PT(c))
 __CPROVER_requires(ONGRID(a) && ONGRID(b) && ONGRID(c))
+#ifdef SPLIT_LO
+__CPROVER_requires(P(a)->x >= (double)SPLIT_LO && P(a)->x <= (double)SPLIT_HI)
+#endif
 __CPROVER_requires(tolerance == 0.0)
 __CPROVER_ensures(EX_STRICTLY_INSIDE(a, b, c) ==> __CPROVER_return_value)
 __CPROVER_ensures(!EX_ONCLOSED(a, b, c) ==> !__CPROVER_return_value)
@@ -140,6 +146,9 @@ void h_pointOnLine(void) { void *a, *b, *c; double t; w_pointOnLine(a, b, c, t);
 _Bool w_inBetween(void *a, void *b, void *c)
 __CPROVER_requires(FRESH_PT(a) && FRESH_PT(b) && FRESH_PT(c))
 __CPROVER_requires(ONGRID(a) && ONGRID(b) && ONGRID(c))
+#ifdef SPLIT_LO
+__CPROVER_requires(P(a)->x >= (double)SPLIT_LO && P(a)->x <= (double)SPLIT_HI)
+#endif
 __CPROVER_requires(EXCROSS(a, b, c) == 0)
 __CPROVER_ensures(EX_STRICTLY_INSIDE(a, b, c) ==> __CPROVER_return_value)
 __CPROVER_ensures(!EX_ONCLOSED(a, b, c) ==> !__CPROVER_return_value)
